@@ -161,6 +161,11 @@ func (s *c12State) close() {
 // runChunk runs src as a chunk under PCall and returns the trace: emits, then `ret=…` or `err=…`.
 // status != "ok" when a Go panic escaped or the error is not an ordinary Lua error.
 func (s *c12State) runChunk(src string) (trace []string, status string) {
+	return s.runLoaded(func(L *lua.LState) (*lua.LFunction, error) { return L.LoadString(src) })
+}
+
+// runLoaded: runChunk with the way the chunk is obtained left to the caller (part 3 compiles its fixed sources once)
+func (s *c12State) runLoaded(load func(L *lua.LState) (*lua.LFunction, error)) (trace []string, status string) {
 	status = "ok"
 	s.cur = &trace
 	defer func() {
@@ -169,7 +174,7 @@ func (s *c12State) runChunk(src string) (trace []string, status string) {
 		}
 	}()
 	L := s.L
-	fn, err := L.LoadString(src)
+	fn, err := load(L)
 	if err != nil {
 		trace = append(trace, "err=syntax:"+c12Str(err.Error()))
 		return
@@ -958,17 +963,25 @@ func c12Worker() {
 		return
 	}
 	a := ops[0].Args
-	f := c12FamilyByName(a[1])
 	n, _ := strconv.Atoi(a[2])
 	m, _ := strconv.Atoi(a[3])
-	src := f.Src(n, m)
+	goapi := a[1] == c12GoFamily // part 3 (c12_goapi.go): a host program instead of Lua source; n = place, m = parameters
+	src := ""
+	if !goapi {
+		src = c12FamilyByName(a[1]).Src(n, m)
+	}
 	fmt.Println("C12 prog " + a[1] + " " + a[2] + " " + a[3])
 	for _, op := range ops[1:] {
 		if op.Args[0] != "cfg" {
 			continue
 		}
 		cfg := parseC12Cfg(op.Args[1:])
-		r := c12RunOnce(cfg, src)
+		var r c12Res
+		if goapi {
+			r = c12RunGoAPI(cfg, n, m)
+		} else {
+			r = c12RunOnce(cfg, src)
+		}
 		fmt.Println("C12 prun " + strings.Join(cfg.Tokens(), " ") + " => " + r.Status + " " + r.Trace + " " + r.Probe + " " + r.Fresh)
 	}
 }
@@ -976,6 +989,7 @@ func c12Worker() {
 func init() {
 	if os.Getenv("C12_WORKER") == "1" {
 		debug.SetMaxStack(16 << 20) // runaway recursion in the implementation ends quickly (fatal error, reported by the parent)
+		debug.SetGCPercent(400)     // the worker makes thousands of short-lived states and threads (speed only)
 		c12Worker()
 		os.Exit(0)
 	}
